@@ -130,15 +130,21 @@ def h_split_vs_unsplit(I):
 
 def h_reset(I):
     ss = cases.build([1, 2, 3], lines=[(1, 2), (2, 3), (1, 3)], slacks=[dict(bus=1, idx='S')], pvs=[dict(bus=2, idx='G', p0=0.3)],
-                     pqs=[dict(bus=3, idx='D', p0=0.4, q0=0.1)], shunts=[dict(bus=3, idx='C', b=0.05)])
+                     pqs=[dict(bus=3, idx='D', p0=0.4, q0=0.1)], shunts=[dict(bus=3, idx='C', b=0.05, Sn=40.0, Vn=100.0)])
     before = {(mn, vn): list(map(int, v.a)) for mn, m in ss.models.items() if m.n for vn, v in m.cache.all_vars.items()}
+    par0 = {(mn, pn): (np.array(p.vin, dtype=float), np.array(p.v, dtype=float)) for mn, m in ss.models.items() if m.n
+            for pn, p in m.num_params.items() if p.vin is not None and getattr(p, 'vtype', float) is float}
     names = (list(ss.dae.x_name), list(ss.dae.y_name))
     ss.PFlow.run()
     y1 = np.array(ss.dae.y)
     ss.reset()
     after = {(mn, vn): list(map(int, v.a)) for mn, m in ss.models.items() if m.n for vn, v in m.cache.all_vars.items()}
     ss.PFlow.run()
-    return [('reset + set-up gives every variable the same addresses', before == after),
+    bad = [k for k, (vin0, v0) in par0.items()
+           if not (np.allclose(ss.models[k[0]].num_params[k[1]].vin, vin0, rtol=0, atol=0, equal_nan=True)
+                   and np.allclose(ss.models[k[0]].num_params[k[1]].v, v0, rtol=1e-12, atol=0, equal_nan=True))]
+    return [('reset + set-up leaves every parameter with its input value and its converted value (devices on their own base included)', not bad),
+            ('reset + set-up gives every variable the same addresses', before == after),
             ('reset + set-up gives every slot the same name', names == (list(ss.dae.x_name), list(ss.dae.y_name))),
             ('re-running the power flow after reset reproduces the solution', bool(np.max(np.abs(np.array(ss.dae.y) - y1)) < 1e-9))]
 
